@@ -84,7 +84,7 @@ func (w *World) absorbedIn(fn *ssa.Function) []*ssa.Function {
 					continue
 				}
 				h := c.Call.StaticCallee()
-				if h == nil || seen[h] || w.uniqueCallSite(h) == nil {
+				if h == nil || seen[h] || !w.absorbable(h) {
 					continue
 				}
 				seen[h] = true
@@ -120,4 +120,36 @@ func (w *World) hostOf(fn *ssa.Function) *ssa.Function {
 		fn = c.Parent()
 	}
 	return fn
+}
+
+// absorbedResult: result #i of a call to an extracted helper, when every return
+// of the helper that yields a meaningful value yields the same one (other
+// returns give nil / the zero value, as error paths do). nil otherwise.
+func (w *World) absorbedResult(c *ssa.Call, i int) ssa.Value {
+	if c.Call.IsInvoke() {
+		return nil
+	}
+	h := c.Call.StaticCallee()
+	if h == nil || w.uniqueCallSite(h) == nil {
+		return nil
+	}
+	var val ssa.Value
+	for _, b := range h.Blocks {
+		if len(b.Instrs) == 0 {
+			continue
+		}
+		r, ok := b.Instrs[len(b.Instrs)-1].(*ssa.Return)
+		if !ok || i >= len(r.Results) {
+			continue
+		}
+		v := retOperand(r, i)
+		if k, isC := v.(*ssa.Const); isC && (k.IsNil() || k.Value == nil) {
+			continue
+		}
+		if val != nil && val != v {
+			return nil
+		}
+		val = v
+	}
+	return val
 }
